@@ -23,9 +23,9 @@ theorem C04_v2_beat_reencode (bs : Bytes) (v : Beat) (extra : Bytes)
   rw [decodeBeat_eq, liftDec_ok_iff] at h
   rw [encodeBeat_ok, beat_exact.reencode h]
 
-theorem C04_v2_ovw_reencode (bs : Bytes) (v : Ovw) (extra : Bytes)
+theorem C04_v2_ovw_reencode (bs : Bytes) (hlen : bs.length < maxCount) (v : Ovw) (extra : Bytes)
     (h : decodeOvw bs = .ok (v, extra)) : encodeOvw v extra = .ok bs := by
-  rw [decodeOvw_eq, liftDec_ok_iff] at h
+  rw [decodeOvw_eq bs hlen, liftDec_ok_iff] at h
   rw [encodeOvw_ok v (ovw_exact _ _ _ h).1, ovw_exact.reencode h]
 
 theorem C04_v2_loops_reencode (bs : Bytes) (v : Loops) (extra : Bytes)
